@@ -79,7 +79,12 @@ ChainNext(cfg, s, env) ==
        IN  (IF \E c \in env : c = 0 \/ c > s.pc THEN {ok} ELSE {})
            \cup (IF g.canfail /\ s.pc \in env THEN {ko} ELSE {})
 
-ChainHist(s) == [calls |-> s.calls, ret |-> s.ret, err |-> s.err, thunknil |-> s.thunknil]
+\* pre: the call log at the moment the wrapper returned, BEFORE any returned function value is touched;
+\* ret / ret2: what the returned function yields when invoked a first and a second time (the returned values
+\* themselves when the wrapper returns no function); calls: the log after all that.  The stages are evaluated
+\* when the wrapper runs, each exactly once: a returned function only hands out the stored results.
+ChainHist(s) == [calls |-> s.calls, ret |-> s.ret, err |-> s.err, thunknil |-> s.thunknil,
+                 pre |-> s.calls, ret2 |-> s.ret]
 
 \* the hand-written sequential composition: feed the arguments through the stages
 RECURSIVE Feed(_, _, _)
@@ -101,7 +106,9 @@ ChainProps(cfg, in, h) ==
    <<"non-error results are not zero values after a failure",
        failed # {} => (h.ret = Zeros(cfg.nres) /\ (cfg.thunk => h.thunknil))>>,
    <<"the result differs from the sequential composition",
-       (failed = {} /\ k = cfg.n) => (h.ret = SeqComp(cfg) /\ ~h.thunknil)>> }
+       (failed = {} /\ k = cfg.n) => (h.ret = SeqComp(cfg) /\ ~h.thunknil)>>,
+   <<"a stage is evaluated by the returned function instead of exactly once when the wrapper runs",
+       h.pre = h.calls /\ h.ret2 = h.ret>> }
 
 \* did the instrumented functions do what the case prescribes? (harness binding, not a verdict on goderive)
 ChainBinding(cfg, in, h) ==
@@ -271,7 +278,8 @@ PlumbNext(cfg, s, env) ==
        ELSE {[s EXCEPT !.done = TRUE, !.calls = Append(@, Call(2, Tail(cfg.wargs), cfg.fres, 0)), !.ret = cfg.fres]}
   ELSE {[s EXCEPT !.done = TRUE, !.calls = <<Call(1, PlumbArgs(cfg.kind, cfg.wargs), cfg.fres, 0)>>, !.ret = cfg.fres]}
 
-PlumbHist(s) == [calls |-> s.calls, ret |-> s.ret]
+\* early: number of calls logged before the returned function was called with its (last) arguments
+PlumbHist(s) == [calls |-> s.calls, ret |-> s.ret, early |-> 0]
 
 \* all arguments the original function(s) received, in order of receipt
 Received(calls) == FlattenSeq(ArgsOf(calls))
@@ -279,7 +287,7 @@ Received(calls) == FlattenSeq(ArgsOf(calls))
 PlumbProps(cfg, in, h) ==
   LET k == Len(h.calls) IN
   IF cfg.kind = "tuple"
-  THEN { <<"Tuple calls a function", k = 0>>,
+  THEN { <<"Tuple calls a function", k = 0 /\ h.early = 0>>,
          <<"Tuple does not yield exactly its arguments", h.ret = cfg.wargs>> }
   ELSE {
    <<"the original function is not invoked exactly once",
@@ -287,7 +295,8 @@ PlumbProps(cfg, in, h) ==
    <<"an argument does not arrive in its proper position",
        Received(h.calls) = PlumbArgs(cfg.kind, cfg.wargs)
        /\ (cfg.kind = "uncurry" /\ k >= 1 => Len(h.calls[1].args) = 1)>>,
-   <<"the results are not returned unchanged", k >= 1 => h.ret = h.calls[k].res>> }
+   <<"the results are not returned unchanged", k >= 1 => h.ret = h.calls[k].res>>,
+   <<"the original function is invoked before the returned function is called", h.early = 0>> }
 
 PlumbBinding(cfg, in, h) ==
   \A i \in DOMAIN h.calls :
@@ -296,7 +305,7 @@ PlumbBinding(cfg, in, h) ==
 
 \* Uncurry(Curry(f)) == f : the composite's history is f's own history
 UncurryCurryIsF(cfg, h) ==
-  cfg.kind = "unccur" => h = [calls |-> <<Call(1, cfg.wargs, cfg.fres, 0)>>, ret |-> cfg.fres]
+  cfg.kind = "unccur" => h = [calls |-> <<Call(1, cfg.wargs, cfg.fres, 0)>>, ret |-> cfg.fres, early |-> 0]
 
 -----------------------------------------------------------------------------
 (***************************************************************************)
